@@ -60,6 +60,8 @@ func (t sTree) write(root string) {
 			os.Symlink(n.target, full)
 		case 'p':
 			unix.Mkfifo(full, 0o644)
+		case 'c':
+			unix.Mknod(full, unix.S_IFCHR|0o644, int(unix.Mkdev(1, 3)))
 		}
 	}
 	// metadata after all children exist (directory mtimes!)
@@ -92,6 +94,8 @@ func snapshot(root string) sTree {
 		case info.Mode().IsRegular():
 			n.kind = 'f'
 			n.content, _ = os.ReadFile(p)
+		case info.Mode()&os.ModeCharDevice != 0:
+			n.kind = 'c'
 		default:
 			n.kind = 'p'
 		}
@@ -99,6 +103,20 @@ func snapshot(root string) sTree {
 		return nil
 	})
 	return t
+}
+
+// noDirTimes: a tree carrying the marker entry "\x00nodirtimes" is described without directory mtimes
+// (used for cross-arrangement comparison: a directory's mtime is "now" whenever something inside it
+// changed after the generator touched it, and "now" differs between two runs)
+func (t sTree) noDirTimes() bool { _, ok := t["\x00nodirtimes"]; return ok }
+
+func (t sTree) agreeKey(meta bool) string {
+	c := sTree{}
+	for k, v := range t {
+		c[k] = v
+	}
+	c["\x00nodirtimes"] = sNode{kind: 'm'}
+	return c.describe(meta)
 }
 
 func (t sTree) describe(meta bool) string {
@@ -118,7 +136,11 @@ func (t sTree) describe(meta bool) string {
 			fmt.Fprintf(&b, ":%s", hx([]byte(n.target)))
 		}
 		if meta && n.kind != 'l' {
-			fmt.Fprintf(&b, ":%o:%d", n.perm, n.mtime)
+			if n.kind == 'd' && t.noDirTimes() {
+				fmt.Fprintf(&b, ":%o", n.perm)
+			} else {
+				fmt.Fprintf(&b, ":%o:%d", n.perm, n.mtime)
+			}
 		}
 		b.WriteByte(' ')
 	}
@@ -302,7 +324,11 @@ func suiteSession(h *H) {
 			case k < 9:
 				src[p] = sNode{kind: 'l', target: h.pickS("t", "../x", "/abs", "a")}
 			default:
-				src[p] = sNode{kind: 'p', perm: 0o644, mtime: oldT}
+				if os.Geteuid() == 0 && h.rng.Intn(2) == 0 {
+					src[p] = sNode{kind: 'c', perm: 0o644, mtime: oldT}
+				} else {
+					src[p] = sNode{kind: 'p', perm: 0o644, mtime: oldT}
+				}
 			}
 			names = append(names, p)
 		}
@@ -371,7 +397,10 @@ func suiteSession(h *H) {
 			}
 		}
 		// ---- options
-		optSets := [][]string{{"-r"}, {"-rt"}, {"-a"}, {"-rlpt"}, {"-rc"}, {"-rtI"}, {"-rlptgoD"}, {"-rtc"}, {"-rl"}, {"-rp"}, {"-a", "--delete"}, {"-rt", "--delete"}, {"-a", "-n"}, {"-a", "-n", "--delete"}}
+		optSets := [][]string{{"-r"}, {"-rt"}, {"-a"}, {"-rlpt"}, {"-rc"}, {"-rtI"}, {"-rlptgoD"}, {"-rtc"}, {"-rl"}, {"-rp"}, {"-a", "--delete"}, {"-rt", "--delete"}, {"-a", "-n"}, {"-a", "-n", "--delete"},
+			// every option must influence the wire on its own (C14): one of -o/-g, one of --devices/--specials, --no-* forms
+			{"-rto"}, {"-rtg"}, {"-a", "--no-g"}, {"-a", "--no-o"}, {"-rl", "--devices"}, {"-rl", "--specials"}, {"-a", "--no-devices"}, {"-a", "--no-specials"},
+			{"-rlD"}, {"-a", "--no-D"}, {"-rlogc"}, {"-rDg", "--delete"}, {"-a", "--no-l", "--no-t"}, {"-ro", "-I"}}
 		opts := append([]string{}, optSets[h.rng.Intn(len(optSets))]...)
 		var rules []string
 		if h.rng.Intn(3) == 0 && len(names) > 0 {
@@ -408,6 +437,17 @@ func suiteSession(h *H) {
 		// ---- run every arrangement on a fresh copy of the same state
 		results := map[byte]sTree{}
 		outcomes := map[byte]string{}
+		nonUTF8Dir := false
+		for p, n := range src {
+			if n.kind == 'd' && !utf8ok(p) {
+				nonUTF8Dir = true
+			}
+		}
+		for p, n := range dst {
+			if n.kind == 'd' && !utf8ok(p) {
+				nonUTF8Dir = true
+			}
+		}
 		for _, arr := range []byte("LPUA") {
 			caseNo++
 			dir := filepath.Join(base, fmt.Sprintf("s%d", caseNo))
@@ -417,6 +457,10 @@ func suiteSession(h *H) {
 			os.MkdirAll(dstRoot, 0o755)
 			src.write(srcRoot)
 			dst.write(dstRoot)
+			// the roots themselves are entries of the transfer (".", or "src" without a trailing slash): their
+			// mtimes must not depend on when this arrangement happens to run
+			os.Chtimes(srcRoot, time.Unix(oldT+7, 0), time.Unix(oldT+7, 0))
+			os.Chtimes(dstRoot, time.Unix(oldT+9, 0), time.Unix(oldT+9, 0))
 			before := snapshot(dstRoot)
 			out := runArr(arr, opts, srcRoot, slash, dstRoot)
 			after := snapshot(dstRoot)
@@ -428,17 +472,6 @@ func suiteSession(h *H) {
 			}
 			// ---------------- oracles
 			v := ""
-			nonUTF8Dir := false
-			for p, n := range src {
-				if n.kind == 'd' && !utf8ok(p) {
-					nonUTF8Dir = true
-				}
-			}
-			for p, n := range dst {
-				if n.kind == 'd' && !utf8ok(p) {
-					nonUTF8Dir = true
-				}
-			}
 			switch {
 			case strings.HasPrefix(out, "panic"):
 				v = "FAIL[C08] session panicked: " + out
@@ -537,11 +570,12 @@ func suiteSession(h *H) {
 		}
 		// C14: the outcome does not depend on who sends
 		if !dry {
-			ref := results['L'].describe(times)
+			ref := results['L'].agreeKey(times)
 			for _, arr := range []byte("PUA") {
-				if outcomes[arr] == "ok" && outcomes['L'] == "ok" && results[arr].describe(times) != ref {
+				if outcomes[arr] == "ok" && outcomes['L'] == "ok" && results[arr].agreeKey(times) != ref {
 					h.emit(fmt.Sprintf("!session-agree seed=%d case=%d opts=%s slash=%v arr=L-vs-%c src=[%s] dst=[%s]", h.seed, i, strings.Join(opts, ","), slash, arr, src.describe(false), dst.describe(false)),
-						"differs", fmt.Sprintf("FAIL[C14] destination after arrangement %c differs from the local copy: %s VS %s", arr, results[arr].describe(times), ref), true)
+						"differs", fmt.Sprintf("FAIL[C14] destination after arrangement %c differs from the local copy: %s VS %s%s", arr, results[arr].agreeKey(times), ref,
+							map[bool]string{true: " (tree contains a directory whose name is not valid UTF-8)", false: ""}[nonUTF8Dir]), true)
 				}
 			}
 		}
